@@ -83,7 +83,9 @@ func init() {
 		"context.WithCancel":   inWithCancel,
 		"context.WithTimeout":  inWithTimeout,
 		"context.WithDeadline": inWithTimeout,
-		"context.WithValue":    func(fr *frame, a []value) (value, bool) { return a[0], true },
+		"context.WithValue":    inWithValue,
+		"(*sync.Pool).Get":     inPoolGet,
+		"(*sync.Pool).Put":     func(fr *frame, a []value) (value, bool) { return nil, true },
 
 		"time.Now":                inTimeNow,
 		"time.Since":              inTimeSince,
@@ -1101,6 +1103,34 @@ type ctxV struct {
 	done   *chanV
 	err    value // iface
 	m      *machine
+	// a context.WithValue node: shares its parent's Done
+	isValue  bool
+	key, val value
+}
+
+// context.WithValue: a node that carries one key/value pair and is cancelled with its parent.
+func inWithValue(fr *frame, args []value) (value, bool) {
+	m := fr.m
+	if args[0].(iface).t == nil {
+		panic(targetPanic{iface{t: types.Typ[types.String], v: "cannot create context from nil parent"}})
+	}
+	parent := ctxOf(args[0])
+	c := &ctxV{parent: parent, m: m, done: parent.done, isValue: true, key: args[1], val: args[2]}
+	return iface{t: m.ctxType(), v: c}, true
+}
+
+// sync.Pool without reuse: Get returns New() (or nil), Put drops the value.
+func inPoolGet(fr *frame, args []value) (value, bool) {
+	m := fr.m
+	ps := (*m.ptr(args[0], "sync.Pool")).(structure)
+	newFn := ps[len(ps)-1]
+	if newFn == nil {
+		return iface{}, true
+	}
+	if c, ok := newFn.(*closure); ok && c == nil {
+		return iface{}, true
+	}
+	return call(m, fr, token.NoPos, newFn, nil), true
 }
 
 func (m *machine) ctxType() types.Type {
@@ -1147,6 +1177,15 @@ func (c *ctxV) callMethod(fr *frame, name string, args []value) value {
 		}
 		return iface{}
 	case "Value":
+		for x := c; x != nil; x = x.parent {
+			if x.isValue {
+				ki, ok1 := x.key.(iface)
+				ai, ok2 := args[0].(iface)
+				if ok1 && ok2 && ki.t != nil && ai.t != nil && types.Identical(ki.t, ai.t) && m.equals(ki.t, ki.v, ai.v) {
+					return x.val
+				}
+			}
+		}
 		return iface{}
 	case "Deadline":
 		return tuple{zero(m.namedType("time", "Time")), false}
